@@ -189,6 +189,18 @@ Fixpoint norgb (v : lval) {struct v} : bool :=
   end.
 Fixpoint norgb_fields (l : list lfield) : bool := match l with [] => true | f :: r => norgb (lf_val f) && norgb_fields r end.
 
+(* objects are non-empty everywhere (an empty `{ }` is the empty ARRAY in both formats) *)
+Fixpoint lwf (v : lval) {struct v} : bool :=
+  match v with
+  | LScalar _ | LRgb _ => true
+  | LArr vs => (fix go (l : list lval) : bool := match l with [] => true | x :: r => lwf x && go r end) vs
+  | LObj fs => match fs with [] => false | _ => true end &&
+               (fix go (l : list lfield) : bool := match l with [] => true | f :: r => lwf (lf_val f) && go r end) fs
+  end.
+Fixpoint lwf_vals (l : list lval) : bool := match l with [] => true | x :: r => lwf x && lwf_vals r end.
+Fixpoint lwf_fields (l : list lfield) : bool := match l with [] => true | f :: r => lwf (lf_val f) && lwf_fields r end.
+Definition wf_ldoc (d : ldoc) : bool := lwf_fields d.
+
 (* ------------------------------------------------------------------ side conditions *)
 (* the calendar predicate of Props/C13.v (DateProofs.valid_md), restated here because model files do
    not import proof files *)
